@@ -181,3 +181,150 @@ def check_masked_calls(ctx, rule, module_names):
             else:
                 ctx.check(packed or scalar, rule, f"{mn}:np.place at line {node.lineno}", where, "np.place is given values packed by the same mask (it consumes them in order)", signature="place with unpacked values", values=ast.unparse(vals)[:80])
     return n
+
+
+NARROW_NAMES = {"float32", "float16", "single", "half", "csingle", "complex64"}
+NARROW_CODES = {"f", "f4", "f2", "e", "float32", "float16", "single", "half", "<f4", ">f4", "=f4", "<f2", ">f2", "=f2", "F", "c8", "complex64"}
+_DTYPE_TAKERS = {
+    "astype", "dtype", "asarray", "asanyarray", "array", "ascontiguousarray", "empty", "zeros", "ones", "full", "empty_like", "zeros_like",
+    "ones_like", "full_like", "arange", "linspace", "logspace", "fromiter", "frombuffer", "loadtxt", "view", "sum", "cumsum", "mean", "dot", "require",
+}
+
+
+def narrow_float_sites(tree):
+    """[(lineno, text)] - places where a floating type narrower than double is named as a working / storage type"""
+    import ast
+
+    out = []
+    for node in ast.walk(tree):
+        if isinstance(node, ast.Attribute) and node.attr in NARROW_NAMES and isinstance(node.value, ast.Name) and node.value.id in ("np", "numpy"):
+            out.append((node.lineno, ast.unparse(node)))
+        elif isinstance(node, ast.Call):
+            fname = node.func.attr if isinstance(node.func, ast.Attribute) else (node.func.id if isinstance(node.func, ast.Name) else "")
+            cands = [k.value for k in node.keywords if k.arg == "dtype"]
+            if fname in _DTYPE_TAKERS:
+                cands += list(node.args)
+            for c in cands:
+                for x in ast.walk(c):
+                    if isinstance(x, ast.Constant) and isinstance(x.value, str) and x.value in NARROW_CODES:
+                        out.append((node.lineno, f"{fname}(... {x.value!r} ...)"))
+    return sorted(set(out))
+
+
+def check_precision(ctx, rule, module_names):
+    """Shared rule D: the library computes and stores in double precision - nowhere does it name a narrower floating
+    type (np.float32, dtype="f" / "f4" / "e", astype("float32") ...).  Every property that promises agreement 'to
+    rounding error' is stated for doubles; a single-precision copy of a time grid, a profile or a table loses half the
+    digits (and its differences lose all of them away from the origin).  Expected count zero, reported per site."""
+    import ast
+
+    src = "import numpy as np\ndef f(t):\n    a = np.asarray(t, dtype='f')\n    b = t.astype(np.float32)\n    c = np.empty(3, 'f4')\n    d = '%f' % 1.0\n    return a, b, c, d\n"
+    if len(narrow_float_sites(ast.parse(src))) != 3:
+        from ..model import AnalysisError
+
+        raise AnalysisError("precision rule failed its built-in example")
+    n = 0
+    for mn in module_names:
+        m = ctx.P.modules.get(mn)
+        if m is None:
+            continue
+        n += 1
+        sites = narrow_float_sites(m.tree)
+        ctx.check(
+            not sites, rule, f"{mn}:double precision throughout", m.relpath,
+            "no floating type narrower than double is named as a working or storage type (np.float32 / 'f' / 'f4' / 'e' / astype('float32') ...)",
+            signature="narrow float " + "; ".join(f"{t}" for _l, t in sites)[:160], sites=[f"line {l}: {t}" for l, t in sites],
+        )
+    return n
+
+
+def permutation_twice_sites(tree):
+    """[(lineno, text)] - `values_in_sorted_order[order]` with `order = np.argsort(...)`: the sorting permutation applied a
+    second time where its inverse was meant (`out[order] = values`, or `values[np.argsort(order)]`)"""
+    import ast
+
+    out = []
+    for fn in ast.walk(tree):
+        if not isinstance(fn, (ast.FunctionDef, ast.AsyncFunctionDef)):
+            continue
+        orders = set()
+        for n in ast.walk(fn):
+            if isinstance(n, ast.Assign) and len(n.targets) == 1 and isinstance(n.targets[0], ast.Name) and isinstance(n.value, ast.Call):
+                f = ast.unparse(n.value.func)
+                if f.split(".")[-1] in ("argsort", "lexsort"):
+                    orders.add(n.targets[0].id)
+        if not orders:
+            continue
+
+        def mentions(e, names):
+            for x in ast.walk(e):
+                if isinstance(x, ast.Name) and x.id in names:
+                    # .shape / .size / .dtype / len() of a sorted array carry no order
+                    return True
+            return False
+
+        def strip_meta(e):
+            """expression with x.shape / x.size / x.dtype / len(x) sub-expressions removed from consideration"""
+            class T(ast.NodeTransformer):
+                def visit_Attribute(self, nd):
+                    if nd.attr in ("shape", "size", "dtype", "ndim"):
+                        return ast.Constant(value=0)
+                    return self.generic_visit(nd)
+
+                def visit_Call(self, nd):
+                    if isinstance(nd.func, ast.Name) and nd.func.id == "len":
+                        return ast.Constant(value=0)
+                    return self.generic_visit(nd)
+
+            import copy
+
+            return T().visit(copy.deepcopy(e))
+
+        sorted_names = set()
+        changed = True
+        while changed:
+            changed = False
+            for n in ast.walk(fn):
+                if isinstance(n, ast.Assign) and len(n.targets) == 1:
+                    t, v = n.targets[0], strip_meta(n.value)
+                    is_sorted = False
+                    for x in ast.walk(v):
+                        if isinstance(x, ast.Subscript) and isinstance(x.slice, ast.Name) and x.slice.id in orders:
+                            is_sorted = True
+                    if mentions(v, sorted_names):
+                        is_sorted = True
+                    name = t.id if isinstance(t, ast.Name) else (t.value.id if isinstance(t, ast.Subscript) and isinstance(t.value, ast.Name) and not (isinstance(t.slice, ast.Name) and t.slice.id in orders) else None)
+                    if is_sorted and name is not None and name not in sorted_names and name not in orders:
+                        sorted_names.add(name)
+                        changed = True
+        for n in ast.walk(fn):
+            if isinstance(n, ast.Subscript) and isinstance(n.ctx, ast.Load) and isinstance(n.slice, ast.Name) and n.slice.id in orders:
+                base = n.value
+                while isinstance(base, (ast.Call, ast.Attribute)) and not isinstance(base, ast.Name):
+                    base = base.func if isinstance(base, ast.Call) else base.value
+                if isinstance(base, ast.Name) and base.id in sorted_names:
+                    out.append((n.lineno, ast.unparse(n)[:60]))
+    return sorted(set(out))
+
+
+def check_unsort(ctx, rule, module_names):
+    """Order rule (reported with rule G): values computed on argsort-ed data are brought back to the caller's order with
+    the *inverse* permutation.  `sorted_values[order]` applies the sorting permutation twice - right only when it is its
+    own inverse (ascending or exactly reversed input), which is what a quick test tries.  Expected count zero."""
+    import ast
+
+    src = "import numpy as np\ndef f(p):\n    order = np.argsort(p)\n    ps = p[order]\n    v = np.empty(ps.shape)\n    v[:] = ps * 2\n    good = np.empty_like(v)\n    good[order] = v\n    return v[order], good\n"
+    if [t for _l, t in permutation_twice_sites(ast.parse(src))] != ["v[order]"]:
+        from ..model import AnalysisError
+
+        raise AnalysisError("un-sort rule failed its built-in example")
+    for mn in module_names:
+        m = ctx.P.modules.get(mn)
+        if m is None:
+            continue
+        sites = permutation_twice_sites(m.tree)
+        ctx.check(
+            not sites, rule, f"{mn}:sorted results are un-sorted with the inverse permutation", m.relpath,
+            "no value computed on argsort-ed data is indexed with the same `order` again (the inverse is out[order] = values)",
+            signature="permutation applied twice " + "; ".join(t for _l, t in sites)[:140], sites=[f"line {l}: {t}" for l, t in sites],
+        )
